@@ -347,35 +347,44 @@ func Fsck(fs *fstxn.FsState, opts FsckOpts) *FsckReport {
 			break
 		}
 	}
-	for bn := uint64(maxBnum); bn < uint64(len(bbits))*8; bn++ {
-		if !bit(bbits, bn) {
-			r.bad("bitmap", "block number %d beyond the end of the disk is not marked in use", bn)
-			break
-		}
-	}
 	for inum := uint64(2); inum < ninode; inum++ {
 		if !bit(ibits, inum) {
 			r.FreeInodes++
 		}
 	}
 	if opts.Allocators {
-		// the allocator covers the whole bitmap, including numbers beyond the table (marked used)
-		var zb, zi uint64
+		// Free numbers inside the disk / the inode table.  Bits beyond the end matter only if
+		// the running allocator would hand those numbers out.
+		var zb, zbAll, zi, ziAll uint64
 		for n := uint64(0); n < uint64(len(bbits))*8; n++ {
 			if !bit(bbits, n) {
-				zb++
+				zbAll++
+				if n < uint64(maxBnum) {
+					zb++
+				}
 			}
 		}
 		for n := uint64(0); n < uint64(len(ibits))*8; n++ {
 			if !bit(ibits, n) {
-				zi++
+				ziAll++
+				if n < ninode {
+					zi++
+				}
 			}
 		}
 		if got := fs.Balloc.NumFree(); got != zb {
-			r.bad("allocator", "the running server's block allocator has %d free blocks, the on-disk bitmap %d", got, zb)
+			if got == zbAll {
+				r.bad("allocator", "the block allocator counts %d free blocks, but only %d of them exist: %d block numbers beyond the end of the disk are allocatable", got, zb, zbAll-zb)
+			} else {
+				r.bad("allocator", "the running server's block allocator has %d free blocks, the on-disk bitmap %d", got, zb)
+			}
 		}
 		if got := fs.Ialloc.NumFree(); got != zi {
-			r.bad("allocator", "the running server's inode allocator has %d free inodes, the on-disk bitmap %d", got, zi)
+			if got == ziAll {
+				r.bad("allocator", "the inode allocator counts %d free inodes, but only %d of them exist", got, zi)
+			} else {
+				r.bad("allocator", "the running server's inode allocator has %d free inodes, the on-disk bitmap %d", got, zi)
+			}
 		}
 	}
 	return r
